@@ -1130,8 +1130,20 @@ func (val Value) Length() Value {
 		}
 		// Otherwise, we cannot predict the length exactly but we can at
 		// least constrain both bounds of its range, because value coalescing
-		// can only ever reduce the number of elements in the set.
-		return UnknownVal(Number).Refine().NotNull().NumberRangeInclusive(NumberIntVal(1), NumberIntVal(storeLength)).NewValue()
+		// can only ever reduce the number of elements in the set. Elements
+		// that are already wholly known are distinct from one another and
+		// so can never coalesce with each other, only with whatever the
+		// not-yet-known elements turn out to be.
+		minLength := int64(0)
+		for it := val.ElementIterator(); it.Next(); {
+			if _, ev := it.Element(); ev.IsWhollyKnown() {
+				minLength++
+			}
+		}
+		if minLength < 1 {
+			minLength = 1
+		}
+		return UnknownVal(Number).Refine().NotNull().NumberRangeInclusive(NumberIntVal(minLength), NumberIntVal(storeLength)).NewValue()
 	}
 
 	return NumberIntVal(int64(val.LengthInt()))
